@@ -822,6 +822,23 @@ class ExprMixin:
             h = self.attr_models.get(attr)
             if h is not None:
                 return h(self, obj, attr, node)
+            if attr == "__dict__":
+                return dict(obj.fields)  # read-only use (`self.__dict__.get(name)`); writes through it are outside the subset
+            if obj.cls is not None and not attr.startswith("__"):
+                ga = self.tree.find_method(obj.cls, "__getattr__")
+                if ga is not None and not getattr(self, "_in_getattr", False):
+                    # __getattr__ is consulted only after normal lookup failed; AttributeError from it means "no such attribute"
+                    self._in_getattr = True
+                    try:
+                        try:
+                            return self.call_function(FuncV(ga), [obj, attr], {}, node)
+                        except PyRaise as e:
+                            if default is not UNDEF and e.exc.cls_t is not None and z3.is_true(z3.simplify(
+                                    self.lattice.isinstance_cond(e.exc.cls_t, AttributeError))):
+                                return default
+                            raise
+                    finally:
+                        self._in_getattr = False
             if attr == "args" and obj.cls is None and obj.cls_t is not None:
                 return OpaqueArgs(obj)
             if default is not UNDEF:
